@@ -17,6 +17,10 @@ pub struct SimCfg {
     /// (site, definition name) pairs at which `verif::buggify` answers true
     pub buggify: Vec<(String, String)>,
     pub capture_stdout: bool,
+    /// allocator seam: every k-th heap allocation of a sim thread inside an operation is a
+    /// yield point (0 = off)
+    #[serde(default)]
+    pub alloc_yield: u32,
 }
 
 impl SimCfg {
@@ -30,6 +34,7 @@ impl SimCfg {
             kill_at: None,
             buggify: vec![],
             capture_stdout: false,
+            alloc_yield: 0,
         }
     }
 }
@@ -51,6 +56,10 @@ pub struct SimReport {
 static BUGGIFY: Mutex<(Vec<(String, String)>, Vec<(String, String)>)> = Mutex::new((Vec::new(), Vec::new()));
 
 fn buggify_cb(site: &'static str, name: &str) -> bool {
+    sched::no_yield(|| buggify_cb_inner(site, name))
+}
+
+fn buggify_cb_inner(site: &'static str, name: &str) -> bool {
     let mut g = BUGGIFY.lock().unwrap_or_else(|e| e.into_inner());
     let hit = g.0.iter().any(|(s, n)| s == site && n == name);
     if hit {
@@ -111,6 +120,7 @@ pub fn run_sim<R: Send + 'static>(
 
     let n = bodies.len();
     sched::install(n, cfg.strategy.clone(), cfg.sched_seed, schedule);
+    sched::set_alloc_every(cfg.alloc_yield);
     shim::arm(true);
     let mut handles = vec![];
     for (tid, body) in bodies.into_iter().enumerate() {
@@ -170,6 +180,7 @@ pub fn run_sim<R: Send + 'static>(
             }
         }
     }
+    sched::set_alloc_every(0);
     let report = sched::uninstall();
 
     // what process exit would do: flush std's stdout buffer (through the seam, on a sim "thread")
@@ -220,12 +231,12 @@ pub fn run_sim<R: Send + 'static>(
 /// switch landed inside a compilation) and yield at its boundaries.
 pub fn op_begin(label: &str) {
     sched::yield_point("op:begin");
-    sched::set_in_op(true);
     shim::note(&format!("op-begin {label}"));
+    sched::set_in_op(true);
 }
 pub fn op_end(label: &str) {
-    shim::note(&format!("op-end {label}"));
     sched::set_in_op(false);
+    shim::note(&format!("op-end {label}"));
     sched::yield_point("op:end");
 }
 
